@@ -125,6 +125,49 @@ func (ex *executor) checkClosureWrites(st *state, mc *ssa.MakeClosure, li *loopI
 		return false
 	}
 	seen := map[string]bool{}
+	// reads: a captured variable that lives across iterations and that the spawning loop itself stores to (a loop
+	// variable of a `range` / `for` statement before Go 1.22, an accumulator) must not be read by the goroutine -
+	// the loop's next store races with the read, and the goroutine may see a later iteration's value
+	for i, fv := range cfn.FreeVars {
+		if perIter[fv] || i >= len(mc.Bindings) {
+			continue
+		}
+		a, ok := mc.Bindings[i].(*ssa.Alloc)
+		if !ok {
+			continue
+		}
+		storedInLoop := false
+		for lb := range li.body {
+			for _, in := range lb.Instrs {
+				if st2, ok := in.(*ssa.Store); ok && st2.Addr == ssa.Value(a) {
+					storedInLoop = true
+				}
+			}
+		}
+		if !storedInLoop {
+			continue
+		}
+		read := token.NoPos
+		for _, b := range cfn.Blocks {
+			for _, in := range b.Instrs {
+				if u, ok := in.(*ssa.UnOp); ok && u.Op == token.MUL && u.X == ssa.Value(fv) && read == token.NoPos {
+					read = u.Pos()
+					if read == token.NoPos {
+						read = pos
+					}
+				}
+			}
+		}
+		if read == token.NoPos || locks {
+			continue
+		}
+		text := fmt.Sprintf("goroutine %s started in loop %d reads captured variable %s, which the loop assigns in every iteration", strings.TrimPrefix(cfn.Name(), ex.fn.Name()), li.index, names[fv])
+		o := ex.addObligation(st, "ownership", text, False, read)
+		o.PC = True
+		o.Goal = False
+		o.Hyps = nil
+		o.Definite = true
+	}
 	for _, b := range cfn.Blocks {
 		for _, in := range b.Instrs {
 			s, ok := in.(*ssa.Store)
@@ -170,6 +213,7 @@ func (ex *executor) checkClosureWrites(st *state, mc *ssa.MakeClosure, li *loopI
 				o.PC = True
 				o.Goal = False
 				o.Hyps = nil
+				o.Definite = true
 			}
 		}
 	}
